@@ -796,7 +796,7 @@ def check_C08(ctx):
                          "disagreements": {"replay_total": len(res["replay_bad"]), "judge_flags": len(res["conc_bad"])}})
     for (i, fields) in res["conc_bad"]:
         c = cases[i]
-        sig = "C08:%s:%s" % ("deadlock" if "deadlock" in fields[1] else "store" if "collection" in fields[1] else "dup", c["kind"])
+        sig = "C08:%s:%s" % ("deadlock" if "deadlock" in fields[1] else "store" if "collection" in fields[1] else "lock" if "unlocks a lock" in fields[1] else "dup", c["kind"])
         if ctx.violation(sig, "%s requests, schedule of %d choices: %s" % (c["kind"], len(c["schedule"]), fields[1]), {"kind": "schedule", "case": c, "detail": fields}):
             found = True
     if res["replay_bad"] and not found:
